@@ -120,3 +120,35 @@ fn net_model_follows_documented_contracts() {
     assert_eq!(b, b"hi".to_vec());
     assert!(!w.io_before_timeouts);
 }
+
+#[test]
+fn encoding_decode_stub_agrees_with_encoding_rs() {
+    use encoding_rs::{UTF_16LE, WINDOWS_1252};
+    let check = |enc: &'static encoding_rs::Encoding, v: &[u8]| {
+        let (a, ea, xa) = enc.decode(v);
+        let (b, eb, xb) = stub_encoding_decode(enc, v);
+        assert_eq!(a.as_ref(), b.as_ref(), "{} {:x?}", enc.name(), v);
+        assert_eq!(ea, eb, "{} {:x?}", enc.name(), v);
+        assert_eq!(xa, xb, "{} {:x?}", enc.name(), v);
+    };
+    for enc in [WINDOWS_1252, UTF_16LE] {
+        check(enc, &[]);
+        for a in 0..=255u8 {
+            check(enc, &[a]);
+            for b in 0..=255u8 {
+                check(enc, &[a, b]);
+            }
+        }
+    }
+    let mut r = Rng(99);
+    let interesting = [0x00u8, 0x01, 0x1a, 0x1b, 0x41, 0x7f, 0x80, 0x81, 0x9f, 0xa0, 0xd7, 0xd8, 0xdb, 0xdc, 0xdf, 0xe0, 0xef, 0xbb, 0xbf, 0xfe, 0xff];
+    for _ in 0..300_000 {
+        let n = (r.next() % 10) as usize;
+        let mut v = [0u8; 10];
+        for x in v.iter_mut().take(n) {
+            *x = if r.next() % 3 == 0 { (r.next() & 0xff) as u8 } else { interesting[(r.next() % interesting.len() as u64) as usize] };
+        }
+        check(WINDOWS_1252, &v[..n]);
+        check(UTF_16LE, &v[..n]);
+    }
+}
